@@ -51,8 +51,9 @@ func fnBitCount(ctx *cmdContext, args map[string]any) (output respValue, err err
 	// bounds checking
 	if start < 0 {
 		start = 0
-	} else if start >= length {
-		// the range begins after the end of the string
+	}
+	if start >= length {
+		// the range begins after the end of the string (always so for an empty string)
 		output.data = respInt(0)
 		return
 	}
